@@ -40,6 +40,9 @@ type Case struct {
 	PausesMs []int   `json:"pauses_ms"`
 	Script   []Fault `json:"script"`
 	Others   int     `json:"concurrent_other_uploads,omitempty"` // healthy uploads of other requests started while this one is being (re)tried
+	// AlignTotal, when > 0, overrides Size at run time: the body is written in one piece and sized so that
+	// the serialised response is exactly AlignTotal bytes long (head and chunk framing are measured first).
+	AlignTotal int `json:"align_total,omitempty"`
 }
 
 var (
@@ -50,9 +53,12 @@ var (
 func genCase(t *rapid.T) Case {
 	var c Case
 	c.Status = rapid.SampledFrom([]int{200, 200, 404, 500}).Draw(t, "status")
-	switch rapid.IntRange(0, 2).Draw(t, "sizeKind") {
+	switch rapid.IntRange(0, 3).Draw(t, "sizeKind") {
 	case 0:
 		c.Size = rapid.IntRange(3800, 4200).Draw(t, "sizeNear")
+	case 1:
+		// the serialised response (about 90 bytes of head and chunk framing more than the body) ends within a few bytes of offset 4096
+		c.Size = rapid.IntRange(3985, 4030).Draw(t, "sizeAtLimit")
 	default:
 		c.Size = rapid.SampledFrom([]int{0, 1, 100, 4000, 4095, 4096, 4097, 5000, 65536}).Draw(t, "size")
 	}
@@ -73,6 +79,14 @@ func genCase(t *rapid.T) Case {
 		c.Script = append(c.Script, f)
 	}
 	c.Others = rapid.SampledFrom([]int{0, 0, 1, 2, 3}).Draw(t, "others")
+	if rapid.IntRange(0, 4).Draw(t, "aligned") == 0 {
+		// one of the pieces of the serialised response ends exactly at the replay limit, and the first attempt fails late
+		c.AlignTotal = rapid.IntRange(4090, 4106).Draw(t, "alignTotal")
+		c.Segments = nil
+		if rapid.Bool().Draw(t, "alignedLateFailure") {
+			c.Script[0] = Fault{Kind: "5xx-after-body"}
+		}
+	}
 	return c
 }
 
@@ -338,8 +352,58 @@ func (s *faultServer) closeAll() {
 	}
 }
 
+var (
+	overheadMu sync.Mutex
+	overheads  = map[int]int{}
+)
+
+// framingOverhead measures how many bytes the serialised response of the given status is longer than its
+// body when the body is written in one piece of between 256 and 4095 bytes (one healthy upload of 1000 bytes).
+func framingOverhead(status int) (int, error) {
+	overheadMu.Lock()
+	defer overheadMu.Unlock()
+	if v, ok := overheads[status]; ok {
+		return v, nil
+	}
+	probe := Case{Status: status, Size: 1000, PausesMs: []int{0}, Script: []Fault{{Kind: "ok"}}}
+	srv := newFaultServer(probe.Script)
+	defer srv.close()
+	tr := &http.Transport{}
+	defer tr.CloseIdleConnections()
+	client := &http.Client{Transport: tr, Timeout: 15 * time.Second}
+	endUser, _ := http.NewRequest("GET", "http://c06.example/", nil)
+	fw, err := utils.NewResponseForwarder(client, "http://"+srv.ln.Addr().String()+"/", "backend", "req-c06", endUser, nil)
+	if err != nil {
+		return 0, err
+	}
+	fw.Header().Set("Content-Type", "application/octet-stream")
+	fw.Header().Set("X-C06", "reference")
+	fw.WriteHeader(status)
+	fw.Write(vh.Payload("probe", 1000))
+	if err := fw.Close(); err != nil {
+		return 0, err
+	}
+	srv.mu.Lock()
+	defer srv.mu.Unlock()
+	if len(srv.attempts) != 1 || !srv.attempts[0].acked {
+		return 0, fmt.Errorf("probe upload was not received in one acknowledged attempt")
+	}
+	overheads[status] = len(srv.attempts[0].raw) - 1000
+	return overheads[status], nil
+}
+
 func runCase(t vh.TB, c *Case) vh.Outcome {
+	if c.AlignTotal > 0 {
+		ov, err := framingOverhead(c.Status)
+		if err != nil || c.AlignTotal-ov < 256 || c.AlignTotal-ov > 4095 {
+			return vh.Outcome{Inconclusive: fmt.Sprintf("could not measure the framing overhead: %v %v", ov, err)}
+		}
+		c.Size = c.AlignTotal - ov
+	}
 	o := vh.Outcome{NonTrivial: c.Script[0].Kind != "ok"}
+	if c.AlignTotal > 0 {
+		o.Classes = append(o.Classes, "serialised-length-aligned-to-replay-limit")
+	}
 	for i, f := range c.Script {
 		if i < 3 && f.Kind != "ok" {
 			cl := f.Kind
